@@ -105,7 +105,9 @@ func NewPESUnit(r *rand.Rand, pid uint16, serial int, o PESOpts) *Unit {
 		}
 	}
 	h := &astits.PESHeader{StreamID: id, OptionalHeader: &astits.PESOptionalHeader{MarkerBits: 2}}
-	if o.WithPTS {
+	if id == 0xbe || id == 0xbf {
+		h.OptionalHeader = nil
+	} else if o.WithPTS {
 		h.OptionalHeader.PTSDTSIndicator = 2
 		h.OptionalHeader.PTS = &astits.ClockReference{Base: int64(serial)*3003 + int64(pid)}
 	}
